@@ -33,8 +33,11 @@ LEVEL_TEXT = (
     "serialisation under the header the getter read, resp. deletes that header (or finds it absent); whole-property "
     "setters operate on the same header; (R16.6) every typed header property has a load/dump pair from the reasoned "
     "inverse table (lambdas compared up to parameter names and eta-reduction), the accessor stores dump(value) and "
-    "loads load(item) under its own name, and _set_cache_value agrees with its decision table under every "
-    "consistent valuation; (R16.7) every writer of WWWAuthenticate's scheme attribute stores a lower-cased value like "
+    "loads load(item) under its own name, returns its default only on a path that has found the name absent from the "
+    "storage (membership false, storage.get(name) is None / is the fallback it was given) or that runs through an except "
+    "clause (KeyError of the item read, the loader's ValueError / TypeError) - never on a path that only knows the "
+    "stored text to be falsy: a header that is present with an empty text is a value -, and _set_cache_value agrees "
+    "with its decision table under every consistent valuation; (R16.7) every writer of WWWAuthenticate's scheme attribute stores a lower-cased value like "
     "the constructor; (R16.8) a write-back replaces all lines of its header: each header write operation is "
     "classified by executing it on Headers with a string key (replacing: every completing path changes the line "
     "list and some path overwrites / drops lines; adding: the list only ever grows; or possibly not writing), the "
@@ -124,7 +127,7 @@ def run(ctx: Ctx) -> None:
         "R16.3": "ContentRange / WWWAuthenticate notify after every write of private state; parameter dicts are built with the trigger",
         "R16.4": "a class that overrides __setattr__ delegates to the default for every property with a setter",
         "R16.5": "each view getter's callback writes/deletes the header it was read from, is attached on every return path, writes the view's serialisation; whole-property setters write the same header",
-        "R16.6": "every typed header_property on Response has a load/dump pair from the reasoned inverse table",
+        "R16.6": "every typed header_property on Response has a load/dump pair from the reasoned inverse table; the accessor stores dump(value) / loads load(item) under its own name and returns the default only for an absent name (presence is not judged by the truthiness of the stored text)",
         "R16.7": "every writer of WWWAuthenticate's scheme applies the constructor's lower-casing",
         "R16.8": "a write-back replaces the header: its final write is an operation that, executed on Headers, stores the line on every path and can overwrite (an adding operation only right after a replacing write / deletion of the same name), and every name comparison in the Headers operations the views use is case-folded on both sides",
         "R16.9": "a view object that a write-back / whole-property setter treats as empty when it is falsy has nothing to serialise then: falsy (package-defined __bool__ / __len__) implies an empty serialisation",
@@ -415,6 +418,92 @@ def _accessor(ctx: Ctx, k: ClassInfo) -> None:
     raw = [v for v in vals if any(v == f"{s_}[__self__.name]" for s_ in storages)]
     ok = bool(loaded) and all(loaded) and not raw
     ctx.ob("R16.6", f"{tag}_DictAccessorProperty.__get__ loads from its own name", ok, f"returns {vals}", gt, gt.node, f"{tag}accessor get")
+    _accessor_presence(ctx, k, gt, storages, tag)
+
+
+def _item_read(n: ast.AST, storages: set[str]) -> tuple[str, str | None] | None:
+    """(how, fallback) when the node reads the item stored under the accessor's own name: ``S[self.name]`` ->
+    ('subscript', None); ``S.get(self.name[, d])`` -> ('get', d or 'None'); ``S.pop(self.name, d)``."""
+    if isinstance(n, ast.Subscript) and H.text(n.slice) == "__self__.name" and H.text(n.value) in storages:
+        return "subscript", None
+    if isinstance(n, ast.Call) and isinstance(n.func, ast.Attribute) and n.func.attr in ("get", "pop") and n.args and not n.keywords and H.text(n.args[0]) == "__self__.name" and H.text(n.func.value) in storages:
+        return n.func.attr, (H.text(n.args[1]) if len(n.args) > 1 else "None")
+    return None
+
+
+def _accessor_presence(ctx: Ctx, k: ClassInfo, gt: FuncInfo, storages: set[str], tag: str) -> None:
+    """read side of the typed properties: a header that is present reads back as its loaded value, whatever its
+    text (an empty text is a value: assigning '' / an empty collection and reading it back does not give the
+    default).  Decided on every path of ``__get__`` (instance given; with and without a loader) that returns
+    something not computed from the stored item - the default: the path must have found the key *absent*
+    (``name in storage`` false; ``storage.get(name) is None`` / ``storage.get(name, X) is X`` true) or run through an
+    ``except`` handler (KeyError of the item read, the loader's ValueError / TypeError); a path on which the only thing
+    known about the item is that it is falsy (``not value``, ``len(value) == 0``, ``value == ''``) treats a present,
+    empty header as a missing one."""
+    repo = ctx.repo
+    def on_event(a, ev, st):
+        return True if ev[0] == "handler" else a  # the path runs through an ``except`` clause (any depth of the call graph)
+
+    def from_item(term: str) -> bool:
+        return any(_item_read(x, storages) is not None for x in ast.walk(H.P(term)))
+
+    n_default = 0
+    bad: list[str] = []
+    undecided: list[str] = []
+    seen_ok: set[str] = set()
+    for loader in (True, False):
+        ex = H.Exec(repo, k, on_event=on_event)
+        outs = ex.run_function(gt, auto0=False, facts0={"__p1__ is None": False, "__self__.load_func is None": not loader, "__self__.load_func": loader})
+        for o in outs:
+            if o.kind != "ret" or from_item(o.value):
+                continue
+            n_default += 1
+            absent, falsy = [], []
+            for key, val in o.st.facts.items():
+                n = H.P(key)
+                if isinstance(n, ast.Compare) and len(n.ops) == 1:
+                    op, a, b = n.ops[0], n.left, n.comparators[0]
+                    if isinstance(op, ast.In) and H.text(a) == "__self__.name" and H.text(b) in storages:
+                        if val is False:
+                            absent.append(f"`{key}` is false")
+                        continue
+                    for x, y in ((a, b), (b, a)):
+                        it = _item_read(x, storages)
+                        if it is None:
+                            continue
+                        c = H.const_of(H.text(y))
+                        if isinstance(op, (ast.Is, ast.Eq)) and it[1] is not None and H.text(y) == it[1]:
+                            if val is True:  # the fallback of get() came back: nothing is stored under the name
+                                absent.append(f"`{key}` is true")
+                        elif isinstance(op, ast.Eq) and c is not H._NOCONST and c is not None and not c:
+                            if val is True:  # item == '' / item == []
+                                falsy.append(f"`{key}` is true")
+                    for x, y in ((a, b), (b, a)):  # len(item) == 0 / len(item) < 1 / 0 < len(item)
+                        if isinstance(x, ast.Call) and dotted(x.func) == "len" and len(x.args) == 1 and _item_read(x.args[0], storages) is not None:
+                            c = H.const_of(H.text(y))
+                            empty_when = None
+                            if isinstance(op, ast.Eq) and c == 0:
+                                empty_when = True
+                            elif isinstance(op, ast.Lt) and ((x is a and c == 1) or (x is b and c == 0)):
+                                empty_when = (x is a)
+                            if empty_when is not None and val is empty_when:
+                                falsy.append(f"`{key}` is {str(val).lower()}")
+                elif _item_read(n, storages) is not None and val is False:
+                    falsy.append(f"`{key}` is falsy")
+                elif isinstance(n, ast.Call) and dotted(n.func) == "len" and len(n.args) == 1 and _item_read(n.args[0], storages) is not None and val is False:
+                    falsy.append(f"`{key}` is 0")
+            lines = ", ".join(map(str, o.st.trail[-6:]))
+            if absent:
+                seen_ok.add(f"key found absent ({absent[0]})")
+            elif falsy:
+                bad.append(f"{'with' if loader else 'without'} a loader, a path returns `{o.value}` knowing only that the stored item is empty ({falsy[0]}; lines {lines}): a header that is present with an empty text reads back as the default")
+            elif o.st.auto:
+                seen_ok.add("an except handler (item read / loader failed)")
+            else:
+                undecided.append(f"`{o.value}` (lines {lines})")
+    if undecided and not bad:
+        raise AnalysisError(f"{gt.fq}: a path returns {undecided[0]} without reading the stored item, and neither an absence test of the key nor an exception explains it")
+    ctx.ob("R16.6", f"{tag}_DictAccessorProperty.__get__ returns the default only for an absent key", not bad, "; ".join(bad[:2]) if bad else f"{n_default} default-returning path(s), each after {' / '.join(sorted(seen_ok)) or '-'}", gt, gt.node, f"{tag}accessor presence")
 
 
 WRITE_OPS = {"__setitem__", "set", "add", "setlist", "add_header", "setdefault", "setlistdefault"}
